@@ -91,3 +91,28 @@ Example C09_nonvacuous :
   ts_done (fst (tick (fst (tick st 6000000001%Z)) 6000000002%Z)) = true /\
   ts_done (fst (tick st 6000000000%Z)) = false.
 Proof. split; reflexivity. Qed.
+
+(* ---------------- the registry as a concurrent object (Registry/Model.v: small-step interleaving model) ---------------- *)
+From Coq Require Import Arith Lia.
+From NV Require Import Gen.Registry Registry.Model Registry.Inv Registry.ProofsLocal Registry.ProofsInv
+  Registry.Measure Registry.ProofsSafe Registry.Fair Registry.ProofsLive Registry.ProofsListener Registry.Proofs.
+Close Scope N_scope.
+Open Scope nat_scope.
+Open Scope list_scope.
+
+(* CONCURRENT registry: a transfer whose done flag is set is removed within a number of fair rounds given by an explicit measure; then its thread has returned, its source is closed and its TID is gone, for good *)
+Theorem C09_registry_finished_is_reaped :
+  registry_source_facts = true -> forall (adds : list nat) (cl : bool) (st : state) (s tid : nat) (x : sub), reachable adds cl st -> In (tid, s) (alive st) -> nth_error (subs st) s = Some x -> sdone x = true -> forall sch : sched, rounds (nthreads st) (S (phi s st)) sch -> ~ In s (map snd (alive (run st sch))) /\ (exists x' : sub, nth_error (subs (run st sch)) s = Some x' /\ sph x' = Returned /\ sclosed x' = true).
+Proof. exact Registry.Proofs.finished_is_reaped. Qed.
+Print Assumptions C09_registry_finished_is_reaped.
+
+(* after close() the table is empty and every sub-server thread has returned and is closed *)
+Theorem C09_registry_close_drains :
+  registry_source_facts = true -> forall (adds : list nat) (cl : bool) (st : state), reachable adds cl st -> lp st = L_end -> lclose st = true -> rp st = R_end /\ alive st = [] /\ nadd st = List.length (subs st) /\ (forall x : sub, In x (subs st) -> sph x = Returned /\ sclosed x = true).
+Proof. exact Registry.Proofs.close_drains. Qed.
+Print Assumptions C09_registry_close_drains.
+
+Theorem C09_registry_no_deadlock :
+  registry_source_facts = true -> forall (adds : list nat) (cl : bool) (st : state), reachable adds cl st -> terminatedb st = true \/ (exists (i : nat) (st' : state) (a : act), i < nthreads st /\ step st i 0 = Some (st', a)).
+Proof. exact Registry.Proofs.no_deadlock. Qed.
+Print Assumptions C09_registry_no_deadlock.
